@@ -83,6 +83,7 @@ type BlockPlan struct {
 	DefaultPayload bool      `json:"default_payload"` // bellatrix pre-merge: keep execution disabled
 	BySlashedProposer bool   `json:"by_slashed_proposer,omitempty"` // build the block although the slot's proposer is slashed (invalid: used by C03 only)
 	PayloadShape   int       `json:"payload_shape,omitempty"` // 0 ordinary; 1 block_hash all zero; 2 sparse: only parent_hash, prev_randao, timestamp (and withdrawals) are non-default
+	AttEpochs      int       `json:"att_epochs,omitempty"` // 0: attestations of both epochs; 1: only those whose target is the previous epoch; 2: only the current epoch's
 	SlashSpan      int       `json:"slash_span,omitempty"` // 0: slashed headers/votes from the last two epochs; 1: from any past epoch (other side of fork upgrades); 2: also future epochs
 }
 
@@ -613,6 +614,9 @@ func (c *Chain) BuildBlock(slot uint64, plan *BlockPlan) (sbOut *refspec.SignedB
 				continue
 			}
 			te := sp.EpochAtSlot(a)
+			if (plan.AttEpochs == 1 && te == epoch) || (plan.AttEpochs == 2 && te != epoch) {
+				continue
+			}
 			cps := sp.CommitteeCountPerSlot(work, te)
 			for ci := uint64(0); ci < cps; ci++ {
 				if uint64(len(body.Attestations)) >= p.MAX_ATTESTATIONS {
